@@ -541,6 +541,21 @@ structure U2fExt where
   consumeResult : Str → Bool
   upgradeResult : Str → Nat → Str × Option Err
 
+/-! ### cmd/keymasterd `commonTOTPPostHandler` -/
+
+/-- effects: the sealed-server gate was consulted (it writes its own refusal), a refusal written here -/
+inductive CommonOtpEffect
+  | lockedGate
+  | fail (status : Nat)
+deriving DecidableEq, Repr
+
+/-- externals: `sendFailureToClientIfLocked` and `checkAuth` (translated separately), `r.ParseForm`, `strconv.Atoi` -/
+structure CommonOtpExt where
+  locked : Bool
+  checkAuth : Nat → authInfo × Option Err
+  parseForm : Option Err
+  atoi : Str → Nat × Option Err
+
 /-! ### cmd/keymasterd `consumeLoginChallenge` -/
 
 /-- `localUserData`: the pending challenge of a user; the two challenge pointers are compared by identity (numbers
